@@ -14,12 +14,12 @@ Import RecordSetNotations.
 Theorem C12_timeout_ignores_fully_stored : forall cx oid s o, orders s !! oid = Some o -> o_status o = OrderCompleted ->
   (forall id, In id (o_shards o) -> exists sh, shards s !! id = Some sh /\ sh_status sh = ShardCompleted) ->
   handle_timeout_order cx oid s = Ok tt s.
-Proof. exact timeout_ignores_fully_stored. Qed.
+Proof. first [exact timeout_ignores_fully_stored | apply timeout_ignores_fully_stored]. Qed.
 Print Assumptions C12_timeout_ignores_fully_stored.
 
 Theorem C12_ready_schedules_timeout : forall cx s c p oid s' d, step cx s (OReady c p oid) = (s', OutTx COk d) ->
   exists o', orders s' !! oid = Some o' /\ In oid (default [] (timeouts s' !! u64 (cx_height cx + o_timeout o'))).
-Proof. exact ready_schedules_timeout. Qed.
+Proof. first [exact ready_schedules_timeout | apply ready_schedules_timeout]. Qed.
 Print Assumptions C12_ready_schedules_timeout.
 
 Theorem C12_timeout_progress_step_partial : forall cx oid s s' o, handle_timeout_order cx oid s = Ok tt s' -> orders s !! oid = Some o ->
@@ -30,7 +30,7 @@ Theorem C12_timeout_progress_step_partial : forall cx oid s s' o, handle_timeout
   orders s' !! oid = None \/
   (exists o', orders s' !! oid = Some o' /\ o_replica o' <> o_replica o) \/
   cancel_stuck oid o s s'.
-Proof. exact timeout_progress_step_partial. Qed.
+Proof. first [exact timeout_progress_step_partial | apply timeout_progress_step_partial]. Qed.
 Print Assumptions C12_timeout_progress_step_partial.
 
 Theorem C12_timeout_progress_step_refuted : exists cx oid s s' o,
@@ -42,15 +42,15 @@ Theorem C12_timeout_progress_step_refuted : exists cx oid s s' o,
      orders s' !! oid = None \/
      (exists o', orders s' !! oid = Some o' /\ o_replica o' <> o_replica o)) /\
   cancel_stuck oid o s s'.
-Proof. exact timeout_progress_step_refuted. Qed.
+Proof. first [exact timeout_progress_step_refuted | apply timeout_progress_step_refuted]. Qed.
 Print Assumptions C12_timeout_progress_step_refuted.
 
 Theorem C12_negative_timeout_refuted : u64 (-1) = two64 - 1 /\ forall h, 0 < h < two63 -> u64 (h + u64 (-1)) = h - 1.
-Proof. exact negative_timeout_refuted. Qed.
+Proof. first [exact negative_timeout_refuted | apply negative_timeout_refuted]. Qed.
 Print Assumptions C12_negative_timeout_refuted.
 
 Theorem C12_long_timeout_refuted : exists cx oid s o, orders s !! oid = Some o /\ o_status o = OrderDataReady /\
   (exists id sh, In id (o_shards o) /\ shards s !! id = Some sh /\ sh_status sh = ShardWaiting) /\
   handle_timeout_order cx oid s = Ok tt s /\ timeouts s = ∅.
-Proof. exact long_timeout_refuted. Qed.
+Proof. first [exact long_timeout_refuted | apply long_timeout_refuted]. Qed.
 Print Assumptions C12_long_timeout_refuted.
